@@ -22,6 +22,18 @@ APPS = {
     "deblur-fftT": ("applications/image_deblurring/script_image_deblurring.py", ["--size", "12", "--ns_mode", "fftT"]),
     "deblur-tikhonov": ("applications/image_deblurring/script_image_deblurring.py", ["--size", "8", "--ns_mode", "tikhonov_aug"]),
 }
+CMCFG = """CONSTANTS Pixels = {1, 2, 3, 4}
+ MaxIter = 3
+SPECIFICATION Spec
+INVARIANTS KnownPixelsAreData HistoryCountsIterations FinalImageIsBlurred
+PROPERTIES Terminates
+CHECK_DEADLOCK FALSE
+"""
+TCFG = """INIT TInit
+NEXT TNext
+INVARIANT Report
+CHECK_DEADLOCK FALSE
+"""
 PROP_APPS = {"C03": ["completion-synthetic", "deblur-dense", "deblur-sparse", "deblur-tikhonov"], "C01": ["completion-synthetic", "deblur-dense"],
              "C14": ["completion-synthetic", "deblur-dense", "deblur-sparse"]}
 QUICK = {"C03": ["completion-synthetic", "deblur-dense"], "C01": ["deblur-dense"], "C14": ["deblur-dense", "deblur-sparse"]}
@@ -32,9 +44,36 @@ import matplotlib
 matplotlib.use("Agg")
 import matplotlib.pyplot as plt
 plt.show = lambda *a, **k: None
-plt.pause = lambda *a, **k: None
+import json, numpy as np
+
+
+def _pause(*a, **k):
+    # the completion scripts call pause() once per iteration right after the Quantise step: read the script's own
+    # variables from the calling frame (Completion.tla / CompletionTrace.tla)
+    g = sys._getframe(1).f_globals
+    if not all(n in g for n in ("X", "B_Miss", "Q", "psnr_history", "X_im", "img_np", "i")):
+        return
+    import quaternion
+    X, BM, Qm = quaternion.as_float_array(g["X"]), quaternion.as_float_array(g["B_Miss"]), np.asarray(g["Q"]) == 1
+    mse = float(np.mean((g["X_im"].astype(np.float32) - g["img_np"].astype(np.float32)) ** 2))
+    want = float("inf") if mse == 0 else 20 * np.log10(255.0 / np.sqrt(mse))
+    last = float(g["psnr_history"][-1]) if len(g["psnr_history"]) else float("nan")
+    ev = {"ev": "Quantise", "it": int(g["i"]) + 1, "known_are_data": bool(np.array_equal(X[Qm], BM[Qm])),
+          "missing_are_estimates": bool(np.all(np.isfinite(X[~Qm]))), "hist_len": len(g["psnr_history"]),
+          "psnr_truthful": bool(last == want or abs(last - want) <= 1e-5 * abs(want))}
+    P._fh.write(json.dumps({"prop": "APP", "fn": "completion", "cls": "application", "detail": {}, "events": [ev]}) + "\\n")
+
+
+plt.pause = _pause
 try:
-    runpy.run_path(sys.argv[0], run_name="__main__")
+    G = runpy.run_path(sys.argv[0], run_name="__main__")
+    if all(n in G for n in ("psnr_history", "n_iter", "psnr_val", "X", "img_np")) and "quaternion_to_rgb" in G:
+        Xim = G["quaternion_to_rgb"](G["X"])
+        mse = float(np.mean((Xim.astype(np.float32) - G["img_np"].astype(np.float32)) ** 2))
+        want = float("inf") if mse == 0 else 20 * np.log10(255.0 / np.sqrt(mse))
+        ev = {"ev": "Done", "n_iter": int(G["n_iter"]), "hist_len": len(G["psnr_history"]),
+              "final_psnr_truthful": bool(float(G["psnr_val"]) == want or abs(float(G["psnr_val"]) - want) <= 1e-5 * abs(want))}
+        P._fh.write(json.dumps({"prop": "APP", "fn": "completion", "cls": "application", "detail": {}, "events": [ev]}) + "\\n")
 finally:
     P.finish()
 """
@@ -72,6 +111,7 @@ def stage(ctx, quick=False):
     rec = S.Rec()
     notes = {}
     n = 0
+    app_events = []
     for app in apps:
         recs, summary, script = record(app)
         end = [r for r in recs if r["prop"] == "END"]
@@ -79,6 +119,12 @@ def stage(ctx, quick=False):
             ctx.fail(r["fn"], "OutputNotInterpretable", "application", dict(r["detail"], application=app))
         if not end or not summary.startswith("rc=0"):
             ctx.drift.append("M:ApplicationRunsToCompletion %s (%s)" % (app, summary))
+        if ctx.pid == "C03" and any(r["prop"] == "APP" for r in recs):      # the completion loop itself (Completion.tla), once
+            tid_app = len(app_events) + 1
+            app_events.append({"tid": tid_app, "ev": "Start", "application": app})
+            for r in recs:
+                if r["prop"] == "APP":
+                    app_events.extend(dict(e, tid=tid_app) for e in r["events"])
         mine = [r for r in recs if r["prop"] == ctx.pid]
         for r in mine:
             t = rec.new(r["fn"].replace(".repo-test", ""), r["cls"].replace("repo-test", "application"), dict(r["detail"], application=app))
@@ -87,6 +133,10 @@ def stage(ctx, quick=False):
         n += len(mine)
         notes[app] = {"script": script, "run": summary, "calls_judged_for_this_property": len(mine), "calls_recorded_all_properties": (end[0]["detail"].get("n", 0) if end else None)}
     ctx.notes["application_traces"] = notes
+    if app_events:
+        ctx.model("Completion", CMCFG)
+        for tid_, clause in ctx.trace("CompletionTrace", app_events, TCFG):
+            ctx.drift.append("%s image completion application" % (clause if clause.startswith("M:") else "M:" + clause))
     if rec.events:
         S.judge(ctx, rec.events, rec.info)
         ctx.count("application traces (calls)", n)
